@@ -186,3 +186,13 @@ pub fn quote_for_price_down(q: U, x: U, d: U) -> Option<U> {
     let qn = to_u(isqrt(q2))?;
     q.checked_sub(qn)
 }
+
+/// The per-block price band around a reference price, at the prices the vAMM reports (whole price units):
+/// `spot >= P x (1 - l)` is `spot >= ` the product rounded up, `spot <= P x (1 + l)` is `spot <= ` the product rounded down.
+pub fn band_bounds(p: U, l: U, d: U) -> Option<(U, U)> {
+    let upper = mul_div(p, d.checked_add(l)?, d)?;
+    let dl = d.checked_sub(l)?;
+    let lower_floor = mul_div(p, dl, d)?;
+    let exact = u256(lower_floor) * u256(d) == u256(p) * u256(dl);
+    Some((if exact { lower_floor } else { lower_floor + 1 }, upper))
+}
